@@ -136,6 +136,8 @@ impl AuthorityLockGuard {
                 lock_path.display()
             )
         })?;
+        #[cfg(rip_verif)]
+        rip_kernel::verif::point("auth.acquire.created");
 
         Ok(Self {
             lock_path,
